@@ -7,7 +7,7 @@ from ..idx import index
 from ..px import OK, PX, RAISE, Closure, Outcomes
 from ..pxv import Obj, Sym
 from ..te import Member, TypeRef
-from .util import const, fut, self_obj
+from .util import const, fut, same_class, self_obj
 
 EZ = "bellows.ezsp"
 APP = "bellows.zigbee.application"
@@ -49,7 +49,7 @@ def r17_1(ctx):
                   ("await:listener", Outcomes(OK(sl[want]), RAISE("TimeoutError"), RAISE("CancelledError"))),
                   ("*.create_future", lambda px, t, a, k, fr: fut("listener")),
                   ("self._ezsp.networkState", Outcomes(OK((repo.cls(NAMED, "EmberNetworkStatus").members()["NO_NETWORK"],))))]
-        px = PX(repo, models=models, inline=lambda g, aw: g.name in ("wait_for_stack_status", "from_ember_status"))
+        px = PX(repo, models=models, inline=same_class(extra=("from_ember_status", "wait_for_stack_status")))
         holder = {}
 
         def setup():
@@ -132,7 +132,7 @@ def r17_3(ctx):
         def cancelled(px, t, a, k, fr):
             return bool(getattr(px, "_callee", "").startswith("f1.") and done_first)
 
-        px = PX(repo, models=[("*.set_result", set_result), ("*.done", done), ("*.cancelled", cancelled)], inline=lambda g, aw: g.name == "from_ember_status")
+        px = PX(repo, models=[("*.set_result", set_result), ("*.done", done), ("*.cancelled", cancelled)], inline=same_class())
         for st_in, want in ((es["NETWORK_UP"], "NETWORK_UP"), (sl["NETWORK_UP"], "NETWORK_UP"), (es["NETWORK_DOWN"], "NETWORK_DOWN")):
             def setup():
                 return (self_obj(cls, {"_stack_status_listeners": {sl["NETWORK_UP"]: [fut("f1"), fut("f2")], sl["NETWORK_DOWN"]: [fut("d1")]}}),
@@ -146,7 +146,7 @@ def r17_3(ctx):
                 ok = p.terminal == "return" and got == exp and all(isinstance(e.args[0], Member) and e.args[0].name == want for e in sr)
                 ctx.require(ok, f"fanout:done_first={done_first}", f"status {st_in!r} with listeners [f1{'(done)' if done_first else ''}, f2 | d1]: completes {got} "
                             f"(expected {exp}), {p.terminal} {p.value if p.terminal == 'raise' else ''}", func=f, trace=p.trace(12))
-    px = PX(repo, inline=lambda g, aw: g.name == "from_ember_status")
+    px = PX(repo, inline=same_class())
     for p in px.explore(f, lambda: (self_obj(cls, {"_stack_status_listeners": {sl["NETWORK_UP"]: [fut("f1")]}}), {"frame_name": "otherHandler", "args": [es["NETWORK_UP"]]})):
         ctx.require(p.terminal == "return" and not [e for e in p.events if e.kind == "call"], "fanout:other-frame", "a frame other than stackStatusHandler touches listeners", func=f)
 
@@ -166,7 +166,7 @@ def r17_4(ctx):
               ("await:fut", Outcomes(OK((Sym("x"), es["SUCCESS"])), OK((Sym("x"), es["ERR_FATAL"])), RAISE("CancelledError"))),
               ("asyncio.Future", lambda px, t, a, k, fr: fut("fut")),
               ("self.add_callback", lambda px, t, a, k, fr: Sym("cbid"))]
-    px = PX(repo, models=models, inline=lambda g, aw: g.name == "from_ember_status")
+    px = PX(repo, models=models, inline=same_class(stop=("remove_callback",)))
     closures = []
 
     def setup():
